@@ -521,4 +521,300 @@ theorem convert_closed (flags : Nat) (is16 stereo : Bool) (len : Nat) (dest : By
       rw [l5, hlen, frameLen_cases, h.1]; cases is16 <;> simp <;> omega)]
   · rfl
 
+/-! ### truncation block -/
+
+theorem and3 (x : Nat) : x &&& 3 = x % 4 := Nat.and_two_pow_sub_one_eq_mod x 2
+theorem shr1 (x : Nat) : x >>> 1 = x / 2 := by simp [Nat.shiftRight_eq_div_pow]
+theorem shl1' (x : Nat) : x <<< 1 = 2 * x := by simp [Nat.shiftLeft_eq]; omega
+
+/-- **The truncation block in closed form**: nothing is loaded when no byte (or no complete ADPCM
+    table) is left; otherwise the sample keeps the whole frames that are present. -/
+theorem truncBlock_closed (flags : Nat) (is16 stereo : Bool) (n rem : Nat) :
+    truncBlock flags is16 stereo (frameLen is16 stereo) (n * frameLen is16 stereo) (n : Int) rem =
+      if rem = 0 ∨ (fl flags SAMPLE_FLAG_ADPCM = true ∧ rem < 16) then none
+      else
+        let b := Spec.effBytes (fl flags SAMPLE_FLAG_ADPCM) (frameLen is16 stereo) (n * frameLen is16 stereo) rem
+        some (b, ((b / frameLen is16 stereo : Nat) : Int)) := by
+  unfold truncBlock Spec.effBytes
+  by_cases h0 : rem = 0
+  · simp [h0]
+  · simp only [h0, if_false, false_or]
+    generalize hneed : n * frameLen is16 stereo = need
+    by_cases ha : fl flags SAMPLE_FLAG_ADPCM = true
+    · simp only [ha, if_true, true_and]
+      by_cases h16 : rem < 16
+      · simp [h16]
+      · simp only [h16, if_false, shr1, shl1']
+        by_cases hb : 16 + (need + 1) / 2 > rem
+        · have hov : 16 + (need + 1) / 2 - rem ≠ 0 := by omega
+          simp only [hb, if_true, hov, ne_eq, not_false_eq_true]
+          subst hneed
+          cases is16 <;> cases stereo <;> simp [frameLen, and3, Nat.and_one_is_mod, shr1] at hb hov ⊢ <;> (try rw [if_neg hov]) <;>
+          (try simp only [Option.some.injEq, Prod.mk.injEq]) <;> omega
+        · simp only [hb, if_false, ne_eq, not_true_eq_false]
+          subst hneed
+          cases is16 <;> cases stereo <;> simp [frameLen] at hb ⊢ <;> omega
+    · simp only [ha]
+      by_cases hb : need > rem
+      · have hov : need - rem ≠ 0 := by omega
+        simp only [hb, if_true, hov, ne_eq, not_false_eq_true]
+        subst hneed
+        cases is16 <;> cases stereo <;> simp [frameLen, and3, Nat.and_one_is_mod, shr1] at hb hov ⊢ <;> (try rw [if_neg hov]) <;>
+          (try simp only [Option.some.injEq, Prod.mk.injEq]) <;> omega
+      · simp only [hb, if_false, ne_eq, not_true_eq_false]
+        subst hneed
+        cases is16 <;> cases stereo <;> simp [frameLen] at hb ⊢ <;> omega
+
+/-! ### loop sanity -/
+
+theorem clr_of_not_sf (g : Flg) (m : Nat) (h : sf g m = false) : clr g m = g := by
+  simp only [sf, bne_eq_false_iff_eq] at h
+  simp only [clr]
+  ext i hi
+  have := congrArg (fun v => v[i]) h
+  simp only [BitVec.getElem_and] at this
+  simp only [BitVec.getElem_and, BitVec.getElem_not]
+  cases hx : g[i] <;> simp_all
+
+theorem fixBidir_eq (h : Hdr) (mb ml : Nat) :
+    (if sf h.flg mb then (if !sf h.flg ml then { h with flg := clr h.flg mb } else h) else h)
+      = { h with flg := if !sf h.flg ml then clr h.flg mb else h.flg } := by
+  cases hb : sf h.flg mb <;> cases hl : sf h.flg ml <;> simp [clr_of_not_sf, hb]
+
+/-- the two "disable bidirectional flag" statements of the C -/
+def cTail (h : Hdr) : Hdr :=
+  let h := if sf h.flg XMP_SAMPLE_LOOP_BIDIR then
+             (if !sf h.flg XMP_SAMPLE_LOOP then { h with flg := clr h.flg XMP_SAMPLE_LOOP_BIDIR } else h)
+           else h
+  let h := if sf h.flg XMP_SAMPLE_SLOOP_BIDIR then
+             (if !sf h.flg XMP_SAMPLE_SLOOP then { h with flg := clr h.flg XMP_SAMPLE_SLOOP_BIDIR } else h)
+           else h
+  h
+
+/-- the same in the closed form's shape -/
+def sTail (g : Flg) : Flg :=
+  let g := if !sf g XMP_SAMPLE_LOOP then clr g XMP_SAMPLE_LOOP_BIDIR else g
+  let g := if !sf g XMP_SAMPLE_SLOOP then clr g XMP_SAMPLE_SLOOP_BIDIR else g
+  g
+
+theorem fixFlg_eq (g : Flg) (mb ml : Nat) :
+    (if sf g mb then (if !sf g ml then clr g mb else g) else g) = (if !sf g ml then clr g mb else g) := by
+  cases hb : sf g mb <;> cases hl : sf g ml <;> simp [clr_of_not_sf, hb]
+
+theorem cTail_eq (h : Hdr) : cTail h = { h with flg := sTail h.flg } := by
+  obtain ⟨len, lps, lpe, g⟩ := h
+  have e1 : ∀ (g : Flg) (mb ml : Nat), (if sf g mb then (if !sf g ml then ({ len := len, lps := lps, lpe := lpe, flg := clr g mb } : Hdr)
+      else ⟨len, lps, lpe, g⟩) else ⟨len, lps, lpe, g⟩) = ⟨len, lps, lpe, if !sf g ml then clr g mb else g⟩ := by
+    intro g mb ml
+    rw [← fixFlg_eq]
+    split <;> (try split) <;> rfl
+  simp only [cTail, sTail, e1]
+
+theorem loopSanity_closed (h : Hdr) : loopSanity h = Spec.loop h := by
+  obtain ⟨len, lps, lpe, flg⟩ := h
+  have L : loopSanity ⟨len, lps, lpe, flg⟩ = cTail
+      (let h : Hdr := ⟨len, lps, lpe, flg⟩
+       let h := if h.lps < 0 then { h with lps := 0 } else h
+       let h := if h.lpe > h.len then { h with lpe := h.len } else h
+       if h.lps ≥ h.len ∨ h.lps ≥ h.lpe then
+             { h with lps := 0, lpe := 0, flg := clr h.flg (XMP_SAMPLE_LOOP ||| XMP_SAMPLE_LOOP_BIDIR) }
+           else h) := rfl
+  rw [L, cTail_eq]
+  unfold Spec.loop sTail
+  simp only
+  have e1 : (if lps < 0 then ({ len := len, lps := 0, lpe := lpe, flg := flg } : Hdr) else ⟨len, lps, lpe, flg⟩)
+      = ⟨len, max lps 0, lpe, flg⟩ := by
+    split
+    · congr; omega
+    · congr; omega
+  rw [e1]
+  simp only
+  have e2 : (if lpe > len then ({ len := len, lps := max lps 0, lpe := len, flg := flg } : Hdr) else ⟨len, max lps 0, lpe, flg⟩)
+      = ⟨len, max lps 0, min lpe len, flg⟩ := by
+    split
+    · congr; omega
+    · congr; omega
+  rw [e2]
+  simp only
+  have e3 : (max lps 0 ≥ len ∨ max lps 0 ≥ min lpe len) ↔ ¬ (max lps 0 < min lpe len) := by omega
+  simp only [e3]
+  by_cases hv : max lps 0 < min lpe len
+  · simp only [hv, not_true_eq_false, if_false, if_true]
+  · simp only [hv, not_false_eq_true, if_false, if_true]
+
+/-! ### guard fill -/
+
+theorem build_succ_right (n : Nat) (f : Nat → UInt8) : build (n + 1) f = build n f ++ [f n] := by
+  simp [build, List.range_succ]
+
+/-- end guard: `n` bytes appended, byte `j` replicates byte `j mod framelen` of the last frame -/
+theorem guardEnd_closed (fl : Nat) (hfl : fl = 1 ∨ fl = 2 ∨ fl = 4) :
+    ∀ n (a : Bytes), fl ≤ a.length →
+      guardEnd n fl a = a ++ build n (fun j => nth a (a.length - fl + j % fl))
+  | 0, a, _ => by simp [guardEnd, build_zero]
+  | n + 1, a, h => by
+    rw [guardEnd, guardEnd_closed fl hfl n _ (by simp; omega), build_succ, List.append_assoc]
+    congr 1
+    simp only [List.singleton_append, List.length_append, List.length_singleton]
+    have h0 : 0 % fl = 0 := by simp
+    rw [h0, Nat.add_zero]
+    show nth a (a.length - fl) :: _ = _
+    congr 1
+    apply build_congr
+    intro j _
+    rcases hfl with h1 | h1 | h1 <;> subst h1
+    · have e1 : j % 1 = 0 := by omega
+      have e2 : (j + 1) % 1 = 0 := by omega
+      rw [e1, e2, nth_append_right _ _ _ (by omega)]
+      have : a.length + 1 - 1 + 0 - a.length = 0 := by omega
+      rw [this, nth_cons_zero]
+      rfl
+    · by_cases hj : j % 2 = 1
+      · have e2 : (j + 1) % 2 = 0 := by omega
+        rw [hj, e2, nth_append_right _ _ _ (by omega)]
+        have : a.length + 1 - 2 + 1 - a.length = 0 := by omega
+        rw [this, nth_cons_zero]; rfl
+      · have e1 : j % 2 = 0 := by omega
+        have e2 : (j + 1) % 2 = 1 := by omega
+        rw [e1, e2, nth_append_left _ _ _ (by omega)]
+        congr 1; omega
+    · by_cases hj : j % 4 = 3
+      · have e2 : (j + 1) % 4 = 0 := by omega
+        rw [hj, e2, nth_append_right _ _ _ (by omega)]
+        have : a.length + 1 - 4 + 3 - a.length = 0 := by omega
+        rw [this, nth_cons_zero]; rfl
+      · have e2 : (j + 1) % 4 = j % 4 + 1 := by omega
+        rw [e2, nth_append_left _ _ _ (by omega)]
+        congr 1; omega
+
+theorem guardStart_closed (fl : Nat) (hfl : fl = 1 ∨ fl = 2 ∨ fl = 4) (z0 z1 z2 z3 : UInt8) :
+    ∀ (rest : Bytes), 4 ≤ rest.length →
+      guardStart fl (z0 :: z1 :: z2 :: z3 :: rest) = build 4 (fun k => nth rest ((k + 4 * fl - 4) % fl)) ++ rest
+  | [], h => by simp at h
+  | [_], h => by simp at h
+  | [_, _], h => by simp at h
+  | [_, _, _], h => by simp at h
+  | r0 :: r1 :: r2 :: r3 :: rest, _ => by
+    rcases hfl with h1 | h1 | h1 <;> subst h1 <;>
+      simp [guardStart, build, List.range_succ_eq_map, nth]
+
+/-- **Guard fill in closed form.** -/
+theorem guards_closed (fl : Nat) (hfl : fl = 1 ∨ fl = 2 ∨ fl = 4) (pcm : Bytes) (hmod : pcm.length % fl = 0) :
+    guardStart fl (guardEnd (4 * fl) fl (([0, 0, 0, 0] : Bytes) ++ pcm)) = Spec.withGuards fl pcm := by
+  have hfl4 : fl ≤ 4 ∧ 0 < fl := by omega
+  rw [guardEnd_closed fl hfl _ _ (by simp; omega)]
+  unfold Spec.withGuards
+  by_cases hn : pcm.length = 0
+  · have : pcm = [] := List.eq_nil_of_length_eq_zero hn
+    subst this
+    simp only [List.length_nil, if_true]
+    rcases hfl with h1 | h1 | h1 <;> subst h1 <;> decide
+  · simp only [hn, if_false]
+    have hge : fl ≤ pcm.length := by
+      rcases Nat.lt_or_ge pcm.length fl with h | h
+      · rw [Nat.mod_eq_of_lt h] at hmod; omega
+      · exact h
+    have hE : build (4 * fl) (fun j => nth (([0, 0, 0, 0] : Bytes) ++ pcm) ((([0, 0, 0, 0] : Bytes) ++ pcm).length - fl + j % fl))
+        = build (4 * fl) (fun i => nth pcm (pcm.length - fl + i % fl)) := by
+      apply build_congr
+      intro j _
+      have hj : j % fl < fl := Nat.mod_lt _ hfl4.2
+      rw [nth_append_right _ _ _ (by simp; omega)]
+      congr 1
+      simp; omega
+    rw [hE]
+    show guardStart fl (0 :: 0 :: 0 :: 0 :: (pcm ++ _)) = _
+    rw [guardStart_closed fl hfl _ _ _ _ _ (by simp; omega), List.append_assoc]
+    congr 1
+    apply build_congr
+    intro k _
+    have hk : (k + 4 * fl - 4) % fl < fl := Nat.mod_lt _ hfl4.2
+    rw [nth_append_left _ _ _ (by omega)]
+
+/-! ### ADPCM4 -/
+
+theorem psum_congr (f g : Nat → Nat) (n : Nat) (h : ∀ j, j < n → f j = g j) : psum f n = psum g n := by
+  induction n with
+  | zero => simp [psum_zero]
+  | succ n ih => rw [psum_succ, psum_succ, ih (fun j hj => h j (by omega)), h n (by omega)]
+
+theorem lo_nibble (b : UInt8) : (b &&& 0x0f).toNat = b.toNat % 16 := by
+  have h : ∀ n, n < 256 → (UInt8.ofNat n &&& 0x0f).toNat = (UInt8.ofNat n).toNat % 16 := by decide +kernel
+  have := h b.toNat (UInt8.toNat_lt b)
+  rwa [UInt8.ofNat_toNat] at this
+
+theorem hi_nibble (b : UInt8) : ((b >>> 4) &&& 0x0f).toNat = b.toNat / 16 := by
+  have h : ∀ n, n < 256 → ((UInt8.ofNat n >>> 4) &&& 0x0f).toNat = (UInt8.ofNat n).toNat / 16 := by decide +kernel
+  have := h b.toNat (UInt8.toNat_lt b)
+  rwa [UInt8.ofNat_toNat] at this
+
+theorem hi_nibble' (b : UInt8) : (b >>> 4).toNat % 16 = b.toNat / 16 := by
+  have h : ∀ n, n < 256 → (UInt8.ofNat n >>> 4).toNat % 16 = (UInt8.ofNat n).toNat / 16 := by decide +kernel
+  have := h b.toNat (UInt8.toNat_lt b)
+  rwa [UInt8.ofNat_toNat] at this
+
+theorem add_eq_ofNat (d x : UInt8) : d + x = UInt8.ofNat (d.toNat + x.toNat) := by
+  rw [UInt8.ofNat_add, UInt8.ofNat_toNat, UInt8.ofNat_toNat]
+
+/-- table value of nibble `j` of the packed input -/
+def tv (tab inp : Bytes) (j : Nat) : Nat :=
+  (nth tab (if j % 2 = 0 then (nth inp (j / 2)).toNat % 16 else (nth inp (j / 2)).toNat / 16)).toNat
+
+theorem tv_cons_succ (tab : Bytes) (b : UInt8) (inp : Bytes) (j : Nat) : tv tab (b :: inp) (j + 2) = tv tab inp j := by
+  have e1 : (j + 2) % 2 = j % 2 := by omega
+  have e2 : (j + 2) / 2 = j / 2 + 1 := by omega
+  simp only [tv, e1, e2, nth_cons_succ]
+
+theorem length_adpcm4 : ∀ n d tab inp, (adpcm4 n d tab inp).length = 2 * min n inp.length
+  | 0, d, tab, inp => by simp [adpcm4]
+  | n + 1, d, tab, [] => by simp [adpcm4]
+  | n + 1, d, tab, b :: inp => by
+    simp only [adpcm4, List.length_cons, length_adpcm4 n _ tab inp]
+    omega
+
+theorem eq_ofNat_of (x : UInt8) (m : Nat) (h : x.toNat % 256 = m % 256) : x = UInt8.ofNat m := by
+  rw [← UInt8.ofNat_toNat (x := x)]; exact ofNat_congr h
+
+theorem tv_zero (tab : Bytes) (b : UInt8) (inp : Bytes) : tv tab (b :: inp) 0 = (nth tab (b.toNat % 16)).toNat := by
+  simp [tv, nth_cons_zero]
+
+theorem tv_one (tab : Bytes) (b : UInt8) (inp : Bytes) : tv tab (b :: inp) 1 = (nth tab (b.toNat / 16)).toNat := by
+  simp [tv, nth_cons_zero]
+
+theorem nth_adpcm4 : ∀ n d tab inp k, inp.length ≤ n → k < 2 * inp.length →
+    nth (adpcm4 n d tab inp) k = UInt8.ofNat (d.toNat + psum (tv tab inp) (k + 1))
+  | 0, d, tab, inp, k, h, hk => by omega
+  | n + 1, d, tab, [], k, h, hk => by simp at hk
+  | n + 1, d, tab, b :: inp, 0, h, hk => by
+    simp only [adpcm4, nth_cons_zero, psum_succ_left, psum_zero, Nat.add_zero, lo_nibble, tv_zero]
+    apply eq_ofNat_of
+    rw [UInt8.toNat_add]
+    show (d.toNat + (nth tab (b.toNat % 16)).toNat) % 256 % 256 = _
+    omega
+  | n + 1, d, tab, b :: inp, 1, h, hk => by
+    simp only [adpcm4, nth_cons_zero, nth_cons_succ, psum_succ_left, psum_zero, Nat.add_zero, lo_nibble, hi_nibble,
+      tv_zero, tv_one]
+    apply eq_ofNat_of
+    rw [UInt8.toNat_add, UInt8.toNat_add]
+    have e1 : tv tab (b :: inp) (0 + 1) = (nth tab (b.toNat / 16)).toNat := tv_one tab b inp
+    simp only [nth, hi_nibble', e1]
+    generalize (List.getD tab (b.toNat % 16) 0).toNat = x0
+    generalize (List.getD tab (b.toNat / 16) 0).toNat = x1
+    omega
+  | n + 1, d, tab, b :: inp, k + 2, h, hk => by
+    have hl : (b :: inp).length = inp.length + 1 := rfl
+    simp only [adpcm4, nth_cons_succ]
+    rw [nth_adpcm4 n _ tab inp k (by omega) (by omega)]
+    rw [psum_succ_left (tv tab (b :: inp)), psum_succ_left (fun j => tv tab (b :: inp) (j + 1))]
+    simp only [tv_cons_succ, tv_zero, lo_nibble, hi_nibble]
+    have e1 : tv tab (b :: inp) (0 + 1) = (nth tab (b.toNat / 16)).toNat := tv_one tab b inp
+    rw [e1]
+    generalize psum (fun j => tv tab inp j) (k + 1) = S
+    apply ofNat_congr
+    rw [UInt8.toNat_add, UInt8.toNat_add]
+    simp only [nth, hi_nibble']
+    generalize (List.getD tab (b.toNat % 16) 0).toNat = x0
+    generalize (List.getD tab (b.toNat / 16) 0).toNat = x1
+    omega
+
 end Xmp.Sample
